@@ -14,6 +14,14 @@ traits that *are* tables, rewritten into lean/YashModel/Generated/KernelTables.l
                    process state: 255 for `… & 0xFF` / `& 255` / `% 256` / `as u8`, `none` when the status
                    is stored as given                             yash-env/src/system/virtual.rs
 
+  processFields    the fields of `struct Process`                 yash-env/src/system/virtual/process.rs
+  forkInherited    the fields `Process::fork_from` takes from the parent (everything else is what the
+                   constructor `with_parent_and_group` gives a fresh process).  Read shapes: the constructor
+                   call or a struct literal `Process { f: parent.f.clone(), .., ..base }` bound to a local,
+                   `child.f = parent.f;`, `child.f = parent.f.clone();`, `child.f.clone_from(&parent.f);` in
+                   any order, a constructor argument `parent.f`, and a struct base `..parent.clone()` (= every
+                   field not named is inherited).  Any other statement fails loudly.
+
 The pivot (lean/YashModel/Kernel/Signal.lean) is NOT a transcription of the simulator; the theorems
 `YashModel.Kernel.Signal.default_actions_match_code` and `YashModel.Kernel.open_flags_match_code`
 (`decide` over these finite tables) say that its hand-written table of default-ignored signals, its signal
@@ -28,6 +36,7 @@ makes the extractor fail loudly.
 import re
 
 SIG = "yash-env/src/system/virtual/signal.rs"
+PROC = "yash-env/src/system/virtual/process.rs"
 FLAG = "yash-env/src/system/real/open_flag.rs"
 VIRT = "yash-env/src/system/virtual.rs"
 
@@ -43,12 +52,13 @@ def strip_comments(s):
     return re.sub(r"/\*.*?\*/", "", s, flags=re.S)
 
 
-def split_top(s, sep):
+def split_top(s, sep, angles=False):
     out, depth, cur = [], 0, ""
+    opens, closes = ("([{<", ")]}>") if angles else ("([{", ")]}")
     for c in s:
-        if c in "([{":
+        if c in opens:
             depth += 1
-        elif c in ")]}":
+        elif c in closes:
             depth -= 1
         if c == sep and depth == 0:
             out.append(cur)
@@ -222,6 +232,142 @@ def exit_status_mask(h):
     return "none"
 
 
+def process_fields(h, src):
+    m = re.search(r"\bstruct\s+Process\s*\{", src)
+    if not m:
+        h.fail(f"kernel: anchor not found: struct Process in {PROC}")
+    body = h.item_body(src[m.start():], r"\bstruct\s+Process\s*", f"struct Process in {PROC}")
+    fields = []
+    for part in split_top(body, ",", angles=True):
+        part = re.sub(r"#\s*\[.*?\]\s*", "", part, flags=re.S).strip()
+        if not part:
+            continue
+        mm = re.match(r"(?:pub\s*(?:\([^)]*\))?\s*)?([a-z_]\w*)\s*:", part)
+        if not mm:
+            h.fail(f"kernel: struct Process: cannot read field `{part[:60]}`")
+        fields.append(mm.group(1))
+    if len(fields) < 5:
+        h.fail("kernel: struct Process: fewer than five fields read")
+    return fields
+
+
+def from_parent(h, field, expr, parent, what):
+    """is `expr` the parent's value of `field`?  True / False (does not mention the parent) / loud failure"""
+    e = re.sub(r"\s+", "", expr)
+    if not re.search(r"\b" + re.escape(parent) + r"\b", e):
+        return False
+    m = re.match(r"&?" + re.escape(parent) + r"\.([a-z_]\w*)(?:\.clone\(\)|\.to_owned\(\))?$", e)
+    if not m or m.group(1) != field:
+        h.fail(f"kernel: {what}: `{field}` is computed from the parent in a way the extractor does not understand: `{expr.strip()[:60]}`")
+    return True
+
+
+def ctor_params(h, src):
+    m = re.search(r"fn\s+with_parent_and_group\s*\(([^)]*)\)", src)
+    if not m:
+        h.fail(f"kernel: anchor not found: Process::with_parent_and_group in {PROC}")
+    names = [a.split(":")[0].strip() for a in split_top(m.group(1), ",") if a.strip()]
+    body = strip_comments(h.item_body(src, r"fn\s+with_parent_and_group\s*\([^)]*\)\s*->\s*\w+\s*", "body of with_parent_and_group"))
+    for n in names:
+        # the parameter must initialise the field of the same name (shorthand `n,` or `n: n`)
+        if not re.search(r"[{,]\s*" + n + r"\s*(?:,|:\s*" + n + r"\s*[,}])", body):
+            h.fail(f"kernel: with_parent_and_group: parameter `{n}` does not initialise the field of that name")
+    return names
+
+
+def base_expr(h, src, expr, parent, fields, inherited, what):
+    """a constructor call / struct literal / `parent.clone()` that yields the child before the assignments"""
+    e = expr.strip()
+    m = re.match(r"(?:Self|Process)\s*::\s*with_parent_and_group\s*\((.*)\)$", e, flags=re.S)
+    if m:
+        params = ctor_params(h, src)
+        args = [a for a in split_top(m.group(1), ",") if a.strip()]
+        if len(args) != len(params):
+            h.fail(f"kernel: {what}: with_parent_and_group called with {len(args)} arguments")
+        for prm, a in zip(params, args):
+            if from_parent(h, prm, a, parent, what):
+                inherited.add(prm)
+        return
+    if re.match(r"\*?" + re.escape(parent) + r"\s*\.\s*clone\s*\(\s*\)$", e) or e == "*" + parent:
+        inherited.update(fields)
+        return
+    m = re.match(r"(?:Self|Process)\s*\{(.*)\}$", e, flags=re.S)
+    if m:
+        named = set()
+        base = None
+        for part in split_top(m.group(1), ","):
+            part = part.strip()
+            if not part:
+                continue
+            if part.startswith(".."):
+                base = part[2:]
+                continue
+            mm = re.match(r"([a-z_]\w*)\s*(?::(.*))?$", part, flags=re.S)
+            if not mm or mm.group(1) not in fields:
+                h.fail(f"kernel: {what}: cannot read struct-literal field `{part[:60]}`")
+            f = mm.group(1)
+            named.add(f)
+            if from_parent(h, f, mm.group(2) if mm.group(2) is not None else f, parent, what):
+                inherited.add(f)
+        if base is None:
+            if named != set(fields):
+                h.fail(f"kernel: {what}: struct literal without a base does not name every field")
+            return
+        rest = set()
+        base_expr(h, src, base, parent, fields, rest, what)
+        inherited.update(rest - named)
+        return
+    h.fail(f"kernel: {what}: cannot read how the child is first built: `{e[:80]}`")
+
+
+def fork_inherited(h, src, fields):
+    what = f"Process::fork_from in {PROC}"
+    m = re.search(r"fn\s+fork_from\s*\(\s*(\w+)\s*:\s*Pid\s*,\s*(\w+)\s*:\s*&\s*Process\s*\)\s*->\s*(?:Process|Self)\s*", src)
+    if not m:
+        h.fail(f"kernel: anchor not found: {what}")
+    parent = m.group(2)
+    body = strip_comments(h.item_body(src[m.start():], r"fn\s+fork_from\s*\([^)]*\)\s*->\s*\w+\s*", "body of " + what))
+    stmts = [x.strip() for x in split_top(body, ";")]
+    inherited = set()
+    child = None
+    for i, st in enumerate(stmts):
+        last = i == len(stmts) - 1
+        if not st:
+            continue
+        mm = re.match(r"let\s+(?:mut\s+)?(\w+)\s*(?::\s*\w+\s*)?=\s*(.*)$", st, flags=re.S)
+        if mm and child is None:
+            child = mm.group(1)
+            base_expr(h, src, mm.group(2), parent, fields, inherited, what)
+            continue
+        if child is None and last:
+            base_expr(h, src, st, parent, fields, inherited, what)   # the body is one expression
+            child = ""
+            continue
+        if child is None:
+            h.fail(f"kernel: {what}: statement before the child exists: `{st[:60]}`")
+        if last and st == child:
+            continue
+        mm = re.match(re.escape(child) + r"\s*\.\s*([a-z_]\w*)\s*=(?!=)\s*(.*)$", st, flags=re.S)
+        if mm and mm.group(1) in fields:
+            f = mm.group(1)
+            if from_parent(h, f, mm.group(2), parent, what):
+                inherited.add(f)
+            else:
+                inherited.discard(f)
+            continue
+        mm = re.match(re.escape(child) + r"\s*\.\s*([a-z_]\w*)\s*\.\s*clone_from\s*\((.*)\)$", st, flags=re.S)
+        if mm and mm.group(1) in fields:
+            f = mm.group(1)
+            if not from_parent(h, f, mm.group(2), parent, what):
+                h.fail(f"kernel: {what}: clone_from of something that is not the parent's `{f}`")
+            inherited.add(f)
+            continue
+        h.fail(f"kernel: {what}: statement the extractor does not understand: `{st[:80]}`")
+    if child is None:
+        h.fail(f"kernel: {what}: empty body")
+    return sorted(inherited)
+
+
 def lean_rows(h, rows, order=None):
     keys = order if order else sorted(rows)
     return "[" + ", ".join(f"({h.lean_str(k)}, {h.lean_str(rows[k])})" for k in keys) + "]"
@@ -232,6 +378,9 @@ def kernel_tables(h):
     flags = to_real_flag(h, "OpenFlag", PIVOT_FLAGS)
     acc = to_real_flag(h, "OfdAccess", ["ReadOnly", "WriteOnly", "ReadWrite"])
     mask = exit_status_mask(h)
+    psrc = h.read(PROC)
+    fields = process_fields(h, strip_comments(psrc))
+    inh = fork_inherited(h, psrc, fields)
     body = (
         "/-- `SignalEffect::of` (yash-env/src/system/virtual/signal.rs): Rust variant name of the signal,\n"
         "    default action (none / terminate / core = terminate with core dump / suspend / resume) -/\n"
@@ -241,7 +390,12 @@ def kernel_tables(h):
         "/-- `OfdAccess::to_real_flag` (same file); `-` = no flag (`None`) -/\n"
         f"def accessReal : List (String × String) :=\n  {lean_rows(h, acc)}\n\n"
         "/-- mask applied by `Exit::exit` of VirtualSystem to the status it stores (`none`: stored as given) -/\n"
-        f"def exitStatusMask : Option Nat := {mask}\n"
+        f"def exitStatusMask : Option Nat := {mask}\n\n"
+        "/-- the fields of `struct Process` (yash-env/src/system/virtual/process.rs), in declaration order -/\n"
+        f"def processFields : List String :=\n  [{', '.join(h.lean_str(x) for x in fields)}]\n\n"
+        "/-- the fields of the child that `Process::fork_from` takes from the parent (the others are those of a\n"
+        "    fresh process) -/\n"
+        f"def forkInherited : List String :=\n  [{', '.join(h.lean_str(x) for x in inh)}]\n"
     )
     h.write("KernelTables", body)
 
